@@ -1,7 +1,8 @@
 (* Properties/C18.v — statements only.  "The pool's bookkeeping never drifts; the published executables are in
    non-increasing priority-price order" over the model of txpool/tx_object_map.go + the publishing loop of wash. *)
 From Coq Require Import List NArith ZArith Bool Lia Sorted.
-From Verif Require Import Common.Util TxPool.Model TxPool.Proofs.
+From Verif Require Import Common.Util TxPool.Model TxPool.Proofs TxPool.ModelWash TxPool.ProofsWash
+  TxPool.ModelAdmission TxPool.ProofsAdmission.
 From Verif Require Common.GoInt Gen.PoolSync GenProofs.PoolSyncProofs.
 Import ListNotations.
 Open Scope N_scope.
@@ -42,12 +43,92 @@ Proof. exact (executables_sorted_thm p energy l). Qed.
 Theorem wash_publish_keeps_inv p energy cands : inv p -> inv (fst (fst (publish p energy cands))).
 Proof. exact (publish_inv energy cands p). Qed.
 
-(* 3. drop_reasons — PARTIAL: only the promotion loop of wash is modelled (an object is dropped there only if it
-      was not yet executable, i.e. its payer could not cover pending + cost or it had no pricing).  The earlier
-      phase (blocked / outlived / Evaluate error / the three over-limit cases) is not modelled (listed as a gap in manifest.d/C18.json). *)
-Theorem drop_reasons_partial energy cands p h :
-  In h (snd (publish p energy cands)) -> exists o, In o cands /\ hash o = h /\ executable o = false.
-Proof. exact (publish_drop_reason energy cands p h). Qed.
+(* 3. the WHOLE wash (TxPool/ModelWash.v: blocked / out of lifetime / Evaluate verdicts, pricing publication and
+      refresh, sort, the three over-limit cases, promotion loop, eviction) over arbitrary per-object verdicts:
+      it preserves the bookkeeping invariant ... *)
+Theorem wash_keeps_inv env p : inv p -> inv (wr_pool (wash env p)).
+Proof. exact (wash_inv env p). Qed.
+
+(* ... drop_reasons: whatever it removes carries one of the listed reasons and the reason is TRUE of the pooled
+      object: blocked; remote and out of lifetime; Evaluate error (class c: expired, settled = known tx, dependency
+      reverted, unpayable = BuyGas failure, or not includable: gas above the block gas limit / block ref beyond the
+      5-minute schedule / unsupported type or feature — see ModelAdmission.ev_err); displaced under one of the three
+      documented limits (only remote txs); payer cannot cover pending + cost at promotion ... *)
+Theorem drop_reasons env p h r :
+  In (h, r) (wr_removed (wash env p)) ->
+  exists o, In o (objs p) /\ hash o = h /\
+    let a := run_phase1 env p in
+    let ne := length (p1_exec a) in let nn := length (p1_nonexec a) in let limit := w_limit env in
+    match r with
+    | RBlocked => w_blocked env o = true
+    | ROutlived => local_ o = false /\ w_outlived env o = true
+    | REvalErr c => w_eval env o = EvErr c
+    | RLimitNonExecAll => local_ o = false /\ w_eval env o = EvNo /\ (limit < ne)%nat
+    | RLimitExecTail => local_ o = false /\ (exists pr, w_eval env o = EvYes pr) /\ (limit < ne)%nat
+    | RLimitTotal => local_ o = false /\ w_eval env o = EvNo /\ (ne <= limit < ne + nn)%nat
+    | RLimitNonExec => local_ o = false /\ w_eval env o = EvNo /\ (ne + nn <= limit)%nat /\ (Nat.div (limit * 2) 10 < nn)%nat
+    | RUnpayable => executable o = false /\ exists pr, w_eval env o = EvYes pr
+    end.
+Proof. exact (drop_reasons_thm env p h r). Qed.
+
+(* ... and nothing leaves the pool in a wash without being in that list *)
+Theorem wash_only_removes_listed env p o :
+  In o (objs p) ->
+  In (hash o) (map hash (objs (wr_pool (wash env p)))) \/ In (hash o) (map fst (wr_removed (wash env p))).
+Proof. exact (ProofsWash.wash_only_removes_listed env p o). Qed.
+
+(* what wash publishes is in non-increasing priority price order, was evaluated executable on this head, is not blocked *)
+Theorem wash_published_sorted env p :
+  StronglySorted (fun a b => pgp_of b <= pgp_of a) (wr_published (wash env p)).
+Proof. exact (ProofsWash.wash_published_sorted env p). Qed.
+
+Theorem published_were_evaluated env p o' :
+  In o' (wr_published (wash env p)) ->
+  exists o, In o (objs p) /\ hash o' = hash o /\ w_blocked env o = false /\ exists pr, w_eval env o = EvYes pr.
+Proof. exact (ProofsWash.published_were_evaluated env p o'). Qed.
+
+(* 3b. evaluate_implies_adopt.  TxObject.Evaluate (txpool/tx_object.go) and Flow.Adopt (packer/flow.go) transcribed
+      clause by clause over the same abstract head (TxPool/ModelAdmission.v).  If the pool evaluates a pooled tx
+      executable on head h (and holds it: chain tag and delegator checked at admission, not blocked), then Adopt on ANY
+      flow over the same head answers "adopted" or exactly one of the enumerated differences:
+        - bad tx "effective priority fee too low": only with the packer option --min-tx-priority-fee set above the fee;
+        - bad tx from execution: only if, on the FLOW's state and time, the payer can no longer buy the gas
+          (state consumed by an earlier tx of the block);
+        - not adoptable now / gas limit reached: only for lack of block space (this includes a new-block gas limit
+          below the head's, which Evaluate compares against);
+        - not adoptable now "gas price below base fee": only if the flow's state changed the fee parameters;
+        - known tx: only if an earlier tx of this flow has the same id;
+        - not adoptable forever: only if the dependency was re-executed and reverted inside this flow.
+      No other bad-tx class (blocked, features, chain tag, expired, type) and no "block ref ahead" / "dependency
+      missing" answer is possible. *)
+Theorem evaluate_implies_adopt (St : Type) fee_ok energy_ok eff_priority_fee interval_30 h s (f : flowv St) t :
+  evaluate St fee_ok energy_ok interval_30 h s t = VExecutable -> pool_static t = true ->
+  match adopt St fee_ok energy_ok eff_priority_fee h f t with
+  | AOk => True
+  | ABad BPriorityFeeTooLow =>
+      0 < f_min_priority_fee St f /\ eff_priority_fee (f_state St f) t < f_min_priority_fee St f
+  | ABad BExecFailed => fee_ok (f_state St f) t && energy_ok (f_state St f) (f_time St f) t = false
+  | ABad _ => False
+  | ANotNow NBlockSpace | AGasLimitReached => f_gas_limit St f < f_gas_used St f + t_gas t
+  | ANotNow NFeeBelowBaseFee => fee_ok (f_state St f) t = false
+  | ANotNow NBlockRefAhead => False
+  | ANotNow NDepMissing => False
+  | AKnownTx => f_processed St f (t_id t) <> None
+  | ANotForever => exists d, t_dep t = Some d /\ f_processed St f d = Some true
+  end.
+Proof. exact (evaluate_implies_adopt_thm St fee_ok energy_ok eff_priority_fee interval_30 h s f t). Qed.
+
+(* on a fresh flow (head state, nothing adopted yet, block time not before the pool's evaluation time, energy not
+   shrinking with time, priority-fee option off or met, tx gas within the new block's limit) the tx IS adopted *)
+Theorem fresh_flow_adopts (St : Type) fee_ok energy_ok eff_priority_fee interval_30 h s (f : flowv St) t :
+  evaluate St fee_ok energy_ok interval_30 h s t = VExecutable -> pool_static t = true ->
+  f_state St f = s -> (forall i, f_processed St f i = None) -> f_gas_used St f = 0 ->
+  h_next_time h <= f_time St f ->
+  (forall tm tm', tm <= tm' -> energy_ok s tm t = true -> energy_ok s tm' t = true) ->
+  (f_min_priority_fee St f = 0 \/ f_min_priority_fee St f <= eff_priority_fee s t) ->
+  t_gas t <= f_gas_limit St f ->
+  adopt St fee_ok energy_ok eff_priority_fee h f t = AOk.
+Proof. exact (ProofsAdmission.fresh_flow_adopts St fee_ok energy_ok eff_priority_fee interval_30 h s f t). Qed.
 
 (* 4. (T) the mode switch of the pool: over the definition GENERATED from txpool/tx_pool.go on every run, the pool
       treats the chain as synced (Add evaluates against the head, housekeeping washes) iff the head's timestamp is
@@ -59,7 +140,7 @@ Theorem is_chain_synced_iff (T now blk : Z) :
 Proof. intro H. exact (PoolSyncProofs.is_chain_synced_iff T H now blk). Qed.
 
 (* ------------------------------------------------------------------ non-vacuity *)
-Definition ex_o (h o : N) (d : option N) := mkObj h o d false None h.
+Definition ex_o (h o : N) (d : option N) := mkObj h o d false None h false.
 Definition ex_steps : list step :=
   [ SAdd (ex_o 1 10 None) true (Some (mkPricing 10 500 7)) 16 (fun _ => 100000);
     SAdd (ex_o 2 10 (Some 20)) true (Some (mkPricing 20 300 9)) 16 (fun _ => 100000);
@@ -81,11 +162,37 @@ Example sorted_example :
                               (sort_desc (objs (run (ex_steps ++ [SSetPricing 4 (mkPricing 10 5 8)]))))))) = [2; 4; 3].
 Proof. vm_compute. reflexivity. Qed.
 
+(* a wash over the example pool: object 4 blocked, object 2 fails Evaluate (class 2), object 3 stays executable *)
+Definition ex_env : wash_env :=
+  mkEnv (fun o => hash o =? 4) (fun _ => false)
+        (fun o => if hash o =? 2 then EvErr 2 else EvYes None) (fun _ => None) (fun _ => 100000) 10.
+
+Example wash_example :
+  let w := wash ex_env (run ex_steps) in
+  map hash (objs (wr_pool w)) = [3] /\ map hash (wr_published w) = [3] /\
+  wr_removed w = [(2, REvalErr 2); (4, RBlocked)] /\ quota (wr_pool w) 10 = None /\ aget (cost (wr_pool w)) 20 = 250.
+Proof. vm_compute. repeat split; reflexivity. Qed.
+
+(* Evaluate says executable, a fresh flow adopts; with 25M gas already used the same tx waits for space *)
+Definition ex_tx : txv := mkTx 77 21000 5 100 true false false None true false true false.
+Definition ex_head : headv := mkHead 6 40000000 1000 0 0 0 (fun _ _ => false) (fun _ => None).
+Example admission_example :
+  evaluate unit (fun _ _ => true) (fun _ _ _ => true) 30 ex_head tt ex_tx = VExecutable /\
+  adopt unit (fun _ _ => true) (fun _ _ _ => true) (fun _ _ => 0) ex_head (mkFlow unit 0 40000000 1000 tt (fun _ => None) 0) ex_tx = AOk /\
+  adopt unit (fun _ _ => true) (fun _ _ _ => true) (fun _ _ => 0) ex_head (mkFlow unit 39990000 40000000 1000 tt (fun _ => None) 0) ex_tx = AGasLimitReached.
+Proof. vm_compute. repeat split; reflexivity. Qed.
+
 Print Assumptions bookkeeping_inv.
 Print Assumptions no_lockout.
 Print Assumptions empty_pool_clean.
 Print Assumptions holds_everywhere.
 Print Assumptions executables_sorted.
 Print Assumptions wash_publish_keeps_inv.
-Print Assumptions drop_reasons_partial.
+Print Assumptions wash_keeps_inv.
+Print Assumptions drop_reasons.
+Print Assumptions wash_only_removes_listed.
+Print Assumptions wash_published_sorted.
+Print Assumptions published_were_evaluated.
+Print Assumptions evaluate_implies_adopt.
+Print Assumptions fresh_flow_adopts.
 Print Assumptions is_chain_synced_iff.
